@@ -28,7 +28,7 @@ ASSUMPTIONS = [
     "termination restated as a bound: at most 200 resampling rounds per step (the correct algorithm needs more with probability < 2^-190); wall-clock watchdog firing = inconclusive",
     "density clause judged for |gamma| >= 1e-3 only (statement: above rounding level); at zero force only bound, symmetry-free, and termination are judged",
 ]
-REQUIRED = {"steps": 1500, "steps_huge_force": 100, "steps_zero_force": 50, "steps_per_coordinate_delta": 100, "ks_tests": 12, "rounds_observed": 1500, "adaptive_steps": 50, "masses_updated_after_construction": 100}
+REQUIRED = {"tail_tests": 10, "steps": 1500, "steps_huge_force": 100, "steps_zero_force": 50, "steps_per_coordinate_delta": 100, "ks_tests": 12, "rounds_observed": 1500, "adaptive_steps": 50, "masses_updated_after_construction": 100}
 SHARD_TIMEOUT = {"quick": 900, "thorough": 3000}
 MAX_ROUNDS = 200
 
@@ -68,6 +68,41 @@ def bn_cdf(z, g):
     zp = np.maximum(z, 0.0)
     Fpos = F0 + (zp - (np.exp(2 * g * (zp - 1)) - e2) / (2 * g)) / D
     return np.where(z < 0, Fneg, Fpos)
+
+
+def bn_quantile(p, g):
+    """z with bn_cdf(z, g) = p, by bisection (the CDF is continuous and strictly increasing on [-1, 1])."""
+    lo, hi = -1.0, 1.0
+    for _ in range(200):
+        mid = 0.5 * (lo + hi)
+        if float(bn_cdf(mid, g)) < p:
+            lo = mid
+        else:
+            hi = mid
+    return 0.5 * (lo + hi)
+
+
+def tail_flags(z, g):
+    """Exact rare-event test: numbers of samples beyond the 1e-9 .. 1e-2 quantiles of either tail against the binomial
+    law.  A Kolmogorov-Smirnov statistic is blind to a small admixture (a fraction of a percent of the coordinates
+    following another law) that this sees at once, because the admixture lands where the published density has no mass."""
+    from scipy.stats import binom
+
+    out = []
+    n = len(z)
+    for q in (1e-9, 1e-7, 1e-5, 1e-3, 1e-2):
+        for side in ("lower", "upper"):
+            cut = bn_quantile(q if side == "lower" else 1 - q, g)
+            if not -1 < cut < 1:
+                continue
+            pr = float(bn_cdf(cut, g)) if side == "lower" else 1 - float(bn_cdf(cut, g))
+            if not 0 < pr < 0.5:
+                continue
+            k = int((z < cut).sum()) if side == "lower" else int((z > cut).sum())
+            pv = float(binom.sf(k - 1, n, pr)) if k > n * pr else float(binom.cdf(k, n, pr))
+            if pv < 1e-9:
+                out.append((f"{side}-tail-beyond-{q:g}-quantile", k, n * pr, pv))
+    return out
 
 
 # ----------------------------------------------------------------------------- contract
@@ -221,6 +256,19 @@ def run_density(spec, rec):
         p2 = kstest(z2, lambda x: bn_cdf(x, g_eff)).pvalue
         if p2 < 1e-6:
             rec.viol("C13/density", f"dimensionless displacements do not follow the Bal-Neyts density for gamma={g}: KS p={p:.3g}, re-measured p={p2:.3g} (mean zeta {mean:.4f})", {"gamma": g, "n": [len(z), len(z2)], "mean_zeta": [mean, float(z2.mean())]})
+    # rare events: the tails of the published density
+    tf = tail_flags(z, g_eff)
+    rec.count("tail_tests")
+    if tf:
+        rec.count("escalations")
+        z2 = draw(4 * spec["n"])
+        if z2 is None:
+            return
+        tf2 = {name: (k, e, pv) for name, k, e, pv in tail_flags(z2, g_eff)}
+        for name, k, e, pv in tf:
+            if name in tf2 and (tf2[name][0] > tf2[name][1]) == (k > e):
+                rec.viol("C13/density-tail", f"gamma={g}: {k} of {len(z)} dimensionless displacements lie in the {name} where the Bal-Neyts density puts {e:.3g} (binomial p={pv:.3g}); re-measured {tf2[name][0]} of {len(z2)} against {tf2[name][1]:.3g}", {"gamma": g, "region": name, "observed": [k, tf2[name][0]], "expected": [e, tf2[name][1]]})
+                break
     # displacement along the force is favoured
     if abs(g) >= 0.1:
         se = z.std() / math.sqrt(len(z))
